@@ -358,6 +358,8 @@ class Quaternion(SMUserList):
 
         :seealso: :func:`~spatialmath.quaternion.Quaternion.exp`, :func:`~spatialmath.quaternion.Quaternion.log`, :func:`~spatialmath.quaternion.UnitQuaternion.angvec`, 
         """
+        if len(self) > 1:
+            return Quaternion([q.log()._A for q in self])
         norm = self.norm()
         s = math.log(norm)
         v = math.acos(self.s / norm) * base.unitvec(self.v)
